@@ -168,9 +168,8 @@ func (r *Reader) resolveHref(href string) string {
 		href = decoded
 	}
 
-	if r.baseDir == "" {
-		return href
-	}
+	// (path.Join also cleans the result: member names of the archive have
+	// no "./" or "x/../" segments, whatever directory the OPF lies in)
 	return path.Join(r.baseDir, href)
 }
 
